@@ -8,6 +8,7 @@ import Clover.Proofs.RefineFaults
 import Clover.Proofs.SpecWF
 import Clover.Proofs.RefineAnyPlan
 import Clover.Proofs.RefineAnyPlanFaults
+import Clover.Proofs.RefineExact
 import Clover.Proofs.Witness
 /-! # C01 — queries return exactly the documents that satisfy their criteria -/
 namespace CV.Props.C01
@@ -173,6 +174,19 @@ theorem any_plan_theorems_apply_to_a_real_history :
       compareDocuments r Witness.d2' [(Witness.x, 1)] = 0) :=
   ⟨Witness.ops_ok, Witness.ops_inDomain, Witness.update_not_fullPlan, Witness.delete_not_fullPlan,
     Witness.plan₂_sorted, Witness.witness_states.1, Witness.witness_findAll_one⟩
+
+/-- **Exact answers, call by call, whatever plans serve the calls — whenever the property determines the answer**:
+    reads whose sort order is total on the matching documents (e.g. `_id` among the sort keys), `Count` / `Exists` on the
+    key domain, bulk updates / deletes with a total order (windowed or not), copies, and everything a full scan serves:
+    along any such history the model answers EXACTLY what the specification answers and the store represents the
+    specification's state.  `refine_history` (full scans only) is the special case `allDetermined_allExact`. -/
+theorem refine_history_exact_any_plan (ops : List Op) (hok : ∀ op ∈ ops, OpOK op) (hdom : AllExact likeFn fnFam ops []) :
+    (modelRun likeFn fnFam ops {}).1 = (specRun likeFn fnFam ops []).1 ∧
+      Rep (specRun likeFn fnFam ops []).2 (modelRun likeFn fnFam ops {}).2.kv ∧ WF (specRun likeFn fnFam ops []).2 :=
+  refine_exact_from_empty likeFn fnFam ops hok hdom
+
+theorem full_scan_histories_are_exact_histories (ops : List Op) (s : Spec.State) (h : AllDetermined likeFn fnFam ops s) :
+    AllExact likeFn fnFam ops s := allDetermined_allExact likeFn fnFam ops s h
 
 /-- the domain of `states_refine_any_plan` contains every history of `refine_history` -/
 theorem determined_histories_are_in_domain (ops : List Op) (s : Spec.State) (h : AllDetermined likeFn fnFam ops s) :
